@@ -219,7 +219,7 @@ class TranscriptInterval(AbstractFeatureInterval):
     def chunk_relative_cds_size(self) -> int:
         """Chunk relative CDS size (can shrink if the Location is a slice of the full transcript)"""
         if self.is_coding:
-            return len(self.cds)
+            return len(self.cds.chunk_relative_location)
         return 0
 
     @property
